@@ -33,10 +33,10 @@ impl Clone for Term {
         }
     }
 }
-/// Debug is what `unparse` prints for a literal: a literal prints its text, anything else "#"
+/// Debug is what `unparse` prints for a literal: a literal prints its text, anything else "§"
 impl fmt::Debug for Term {
     fn fmt(&self, f: &mut fmt::Formatter<'_>) -> fmt::Result {
-        match self { Term::Lit(s) => write!(f, "{s}"), _ => write!(f, "#") }
+        match self { Term::Lit(s) => write!(f, "{s}"), _ => write!(f, "§") }
     }
 }
 impl Term {
